@@ -4,8 +4,8 @@ CONSTANTS
   Driven = {1,2,3}
   Targets = {1,2,3,4}
   AliasTargets = {1,2,3}
-  MaxNum = 3
-  MaxOps = 9
+  MaxNum = 2
+  MaxOps = 7
   Known = {"C20-1"}
 VIEW View
 INVARIANT Inv
